@@ -16,11 +16,11 @@
 (* Pure calls of sequtils (truncate, join, stitch, compose, trim) carry     *)
 (* their inputs and outputs and are judged by the SeqModel operators.       *)
 (***************************************************************************)
-EXTENDS Containers, Json, IOUtils
+EXTENDS MultiExt, Json, IOUtils
 
 Trace == ndJsonDeserialize(IOEnv.TRACE)
 
-VARIABLES l, g, ok, fails
+VARIABLES l, g, ok, fails, drift
 
 RowOf(r) == [off |-> r.off, cells |-> r.cells, strand |-> r.strand]
 RowsOf(rs) == [i \in 1..Len(rs) |-> RowOf(rs[i])]
@@ -110,10 +110,34 @@ JudgeCall(e) ==
          ELSE IF SumFrom(e.errs, e.limit, a, b) # BestSum(e.errs, e.limit) THEN "window is not maximal" ELSE ""
     [] OTHER -> "unknown call"
 
+(***************************************************************************)
+(* Extension (MultiExt.tla): whole-alignment operations of multi.Multi;     *)
+(* a disagreement is model drift, never a violation.                        *)
+(***************************************************************************)
+ExtAgrees(e) ==
+  LET m == [kind |-> e.kind, alpha |-> e.alpha, rows |-> RowsOf(e.rows)] IN
+  CASE e.op = "isflush" -> e.panic = "" /\ e.flag = MIsFlush(m, e.where) /\ SameRows(e.kind, e.res, m.rows)
+    [] e.op = "column" ->
+         IF ~ColumnDefined(m, e.pos) THEN e.panic # ""
+         ELSE e.panic = "" /\ SameCells(e.kind, e.col, MColumn(m, e.pos, e.fill)) /\ SameRows(e.kind, e.res, m.rows)
+    [] e.op = "join" ->
+         LET a == [kind |-> e.kind, alpha |-> e.alpha, rows |-> RowsOf(e.other)]
+             j == MJoin(m, a, e.where) IN
+         e.panic = "" /\ (e.err # "") = j.err /\ SameRows(e.kind, e.res, j.m.rows) /\ SameRows(e.kind, e.otherafter, j.a.rows)
+    [] e.op = "stitch" ->
+         IF (\A k \in 1..Len(e.fs) : e.fs[k].s <= e.fs[k].e) /\ OutsideSome(m, Merged(e.fs)) THEN TRUE
+         ELSE LET r == MStitch(m, e.fs) IN e.panic = "" /\ (e.err # "") = r.err /\ SameRows(e.kind, e.res, r.m.rows)
+    [] e.op = "compose" ->
+         IF OutsideSome(m, e.fs) THEN TRUE
+         ELSE LET r == MCompose(m, e.fs) IN e.panic = "" /\ (e.err # "") = r.err /\ SameRows(e.kind, e.res, r.m.rows)
+    [] OTHER -> FALSE
+
 Step ==
   /\ l <= Len(Trace) /\ l' = l + 1
+  /\ drift' = IF Trace[l].ev = "ext" /\ ~ExtAgrees(Trace[l]) THEN Append(drift, l) ELSE drift
   /\ LET e == Trace[l] IN
-     IF e.ev = "reset" THEN
+     IF e.ev = "ext" THEN UNCHANGED <<g, ok, fails>>
+     ELSE IF e.ev = "reset" THEN
        /\ g' = [kind |-> e.kind, alpha |-> e.alpha, rows |-> RowsOf(e.rows)]
        /\ ok' = TRUE
        /\ fails' = IF e.obs.panic = "" /\ ObsMatches(e, g') THEN fails
@@ -133,12 +157,12 @@ Step ==
          ELSE /\ ok' = FALSE /\ UNCHANGED g
               /\ fails' = Append(fails, <<l, e.op \o ": " \o (IF e.obs.panic = "" /\ ObsMatches(e, m) THEN "clone is not an independent copy" ELSE Why(e, m))>>)
 
-TInit == l = 1 /\ ok = FALSE /\ fails = <<>> /\ g = [kind |-> "lin", alpha |-> "DNA", rows |-> <<[off |-> 0, cells |-> <<>>, strand |-> 1]>>]
-TSpec == TInit /\ [][Step]_<<l, g, ok, fails>>
+TInit == l = 1 /\ ok = FALSE /\ fails = <<>> /\ drift = <<>> /\ g = [kind |-> "lin", alpha |-> "DNA", rows |-> <<[off |-> 0, cells |-> <<>>, strand |-> 1]>>]
+TSpec == TInit /\ [][Step]_<<l, g, ok, fails, drift>>
 
 Emit ==
   (l = Len(Trace) + 1) =>
-    Serialize(ToJson([events |-> Len(Trace), fails |-> fails, drift |-> <<>>]), IOEnv.OUT,
+    Serialize(ToJson([events |-> Len(Trace), fails |-> fails, drift |-> drift]), IOEnv.OUT,
               [format |-> "TXT", charset |-> "UTF-8",
                openOptions |-> <<"WRITE", "CREATE", "TRUNCATE_EXISTING">>]).exitValue = 0
 Consumed == TLCGet("stats").diameter - 1 = Len(Trace)
